@@ -171,7 +171,7 @@ func isReaderType(t types.Type) bool {
 }
 
 func runC08(p *Program, r *Report) {
-	r.Explanation = "Structural necessary-and-nearly-sufficient condition for schedule independence, decided on every call site of the metadata packages: (RD1) no fixed-size field is obtained with a single Read on an io.Reader/binary.Reader/bufio.Reader, which may legally return a short count; all stream bytes come from io.ReadFull, io.CopyN/Copy, ReadByte-based helpers, whose result is a function of the byte sequence only; (RD2) no read primitive's error is dropped; (RD3) the binary.ReadU* helpers are built from ReadByte only; (RD4) parsers never type-assert the stream to reach buffering state; (RD5) decoders that buffer ahead on their own (compress/zlib, a second bufio) are applied to in-memory data only, never to the live stream. What is NOT decided: the behaviour of bufio, io.ReadFull and compress/zlib themselves (trusted library contracts)."
+	r.Explanation = "Structural necessary-and-nearly-sufficient condition for schedule independence, decided on every call site of the metadata packages: (RD1) no fixed-size field is obtained with a single Read on an io.Reader/binary.Reader/bufio.Reader, which may legally return a short count; all stream bytes come from io.ReadFull, io.CopyN/Copy, ReadByte-based helpers, whose result is a function of the byte sequence only; (RD2) no read primitive's error is dropped; (RD3) the binary.ReadU* helpers are built from ReadByte only; (RD4) parsers never type-assert the stream to reach buffering state; (RD5) decoders that buffer ahead on their own (compress/zlib, a second bufio) are applied to in-memory data only, never to the live stream; (RD6) no Peek/ReadSlice/ReadLine: nothing the parsers keep is a view into a buffered reader's own buffer. What is NOT decided: the behaviour of bufio, io.ReadFull and compress/zlib themselves (trusted library contracts)."
 	r.RuleText = "one instance per call site (resolved callee, receiver static type); non-trivial = every classified Read call and every read primitive whose error flow was traced"
 	r.Trusted = []string{"go/packages+go/types+go/ssa (x/tools v0.29.0)", "io.ReadFull / io.CopyN / bufio.Reader.ReadByte return the next bytes of the stream regardless of how the source segments them", "compress/zlib reads through io.Reader contract only"}
 
@@ -273,6 +273,38 @@ func runC08(p *Program, r *Report) {
 		}
 	}
 	r.Hold("C08.RD5", "scan", "-", fmt.Sprintf("%d buffering-decoder constructions in meta/...", nDec))
+
+	// RD6: no borrowed view of a reader's internal buffer. Peek / ReadSlice / ReadLine return
+	// a slice INTO the buffered reader's buffer, valid only until the next read: which bytes
+	// the parser finds there later depends on when the buffer was refilled, i.e. on how the
+	// source segments its data (a payload kept from a Peek is overwritten under short reads
+	// and intact under one big read).
+	nView, badView := 0, ""
+	for _, f := range p.SrcFuncs() {
+		if !inMeta(f) {
+			continue
+		}
+		for _, b := range f.Blocks {
+			for _, in := range b.Instrs {
+				c, ok := in.(ssa.CallInstruction)
+				if !ok {
+					continue
+				}
+				name := ""
+				if c.Common().IsInvoke() {
+					name = c.Common().Method.Name()
+				} else if cf := staticCallee(c); cf != nil && cf.Signature.Recv() != nil {
+					name = cf.Name()
+				}
+				nView++
+				switch name {
+				case "Peek", "ReadSlice", "ReadLine":
+					badView = fmt.Sprintf("%s calls %s at %s: the result is a view into the reader's own buffer, overwritten by the next refill — what the parser keeps from it depends on the read schedule", shortFn(f), name, p.InstrPos(in))
+				}
+			}
+		}
+	}
+	r.Check(badView == "", "C08.RD6", "no borrowed buffer views", "-", fmt.Sprintf("%d calls scanned: no Peek/ReadSlice/ReadLine in meta/... (every byte the parsers keep is copied out of the stream)", nView), badView)
 
 	// RD3
 	bin := p.SSAPkg[ModPath+"/meta/binary"]
